@@ -3712,6 +3712,7 @@ type hint =
 | HNone
 | HHandle of handle
 | HNoSpace
+| HShort of n
 
 (** val resolve : params -> afs -> handle -> (inum * obj) option **)
 
@@ -3832,7 +3833,6 @@ let create p s h n0 k content hi =
               else if N.ltb p.p_wtmax (lenN content)
                    then (s, (RStatus ERR))
                    else (match hi with
-                         | HNone -> (s, (RStatus OK))
                          | HHandle hh ->
                            (match parse_handle hh with
                             | Some p1 ->
@@ -3878,7 +3878,8 @@ let create p s h n0 k content hi =
                                    s.unstable_opt }, (RHandle (hh,
                                    (attrs_of i o))))
                             | None -> (s, (RStatus ERR)))
-                         | HNoSpace -> (s, (RStatus ERR)))
+                         | HNoSpace -> (s, (RStatus ERR))
+                         | _ -> (s, (RStatus OK)))
   | None -> (s, (RStatus STALE))
 
 (** val unlink : afs -> inum -> obj -> name -> inum -> afs **)
@@ -4070,17 +4071,22 @@ let do_write p s h off cnt st d hi =
                    else (match hi with
                          | HNoSpace -> (s, (RStatus ERR))
                          | _ ->
+                           let n0 =
+                             match hi with
+                             | HShort k -> N.min k cnt
+                             | _ -> cnt
+                           in
                            let o' =
-                             if N.eqb cnt N0
+                             if N.eqb n0 N0
                              then o
                              else with_content o
-                                    (N.max o.o_size (N.add off cnt))
-                                    (write_bytes o.o_data off d)
+                                    (N.max o.o_size (N.add off n0))
+                                    (write_bytes o.o_data off (takeN n0 d))
                            in
                            let committed =
                              if s.unstable_opt then st else FileSync
                            in
-                           ((set_obj s i o'), (RWritten (cnt, committed,
+                           ((set_obj s i o'), (RWritten (n0, committed,
                            (attrs_of i o')))))
   | None -> (s, (RStatus STALE))
 
@@ -4177,8 +4183,14 @@ let step p s c hi =
             then (s, (RStatus ERR))
             else (s, (RStatus OK))
      | None -> (s, (RStatus STALE)))
-  | CFsinfo _ -> (s, (RFsinfo (p.p_wtmax, p.p_maxfilesize)))
-  | CPathconf _ -> (s, (RPathconf p.p_name_max))
+  | CFsinfo h ->
+    (match resolve p s h with
+     | Some _ -> (s, (RFsinfo (p.p_wtmax, p.p_maxfilesize)))
+     | None -> (s, (RStatus STALE)))
+  | CPathconf h ->
+    (match resolve p s h with
+     | Some _ -> (s, (RPathconf p.p_name_max))
+     | None -> (s, (RStatus STALE)))
   | CUnsupported -> (s, (RStatus NOTSUPP))
   | _ -> (s, (RStatus OK))
 
@@ -5031,12 +5043,24 @@ let agree s r o =
         | Npos _ -> false)
      | _ -> false)
 
-(** val hint_of : oreply -> hint **)
+(** val hint_of : call -> oreply -> hint **)
 
-let hint_of o = match o with
+let hint_of c o = match o with
 | OHandle (code, h, _) ->
   (match code with
    | N0 -> HHandle h
+   | Npos _ ->
+     if (||) (N.eqb (code_of o) (Npos (XO (XO (XI (XI XH))))))
+          (N.eqb (code_of o) (Npos (XI (XO (XI (XO (XO (XO XH))))))))
+     then HNoSpace
+     else HNone)
+| OWritten (code, ocnt, _, _) ->
+  (match code with
+   | N0 ->
+     (match c with
+      | CWrite (_, _, cnt, _, _) ->
+        if N.ltb ocnt cnt then HShort ocnt else HNone
+      | _ -> HNone)
    | Npos _ ->
      if (||) (N.eqb (code_of o) (Npos (XO (XO (XI (XI XH))))))
           (N.eqb (code_of o) (Npos (XI (XO (XI (XO (XO (XO XH))))))))
